@@ -16,7 +16,7 @@ for f, t in logs.items():
     if f.startswith("check_"):
         verdicts[f[6:-4]] = {"violation_reported": "VIOLATION property=" in rd(f), "summary": [l for l in rd(f).splitlines() if l.startswith("SUMMARY")][-1:] }
 meta = {
-    "property": pid.rstrip("b"),
+    "property": pid.rstrip("bcd"),
     "origin": "written by an independent sub-agent that saw only the property text and a scratch worktree of /repo (nothing from /verif)",
     "needs_to_manifest": needs,
     "confirmed_by_me": {
